@@ -225,3 +225,17 @@ claim("C14",
       note="Directions are rational (dense, not exhaustive). Known finding spheropolygon-irregular-core (rewrite needed).",
       technique="TLA+ model checking (TLC) of exact ray/edge hits + spec-to-code replay + definitional identity on outputs",
       design_ref="DESIGN.md 5 C14")
+
+
+claim("C12",
+      text="Exact Fourier integrals computed by TLC: voxel solids of spec/Voxel3.tla at q = (pi/2) m (every phase a power of -i, F = "
+           "Gaussian integer x 2^nz / (pi^nz prod m), with F(0) = V and G(-m) = (-1)^nz conj G(m) checked in the spec); lattice "
+           "polygons of spec/Polygon2.tla at q = pi m by the simplex formula over the growth triangulation (pi^2 F rational); "
+           "spheres at |q| R in (pi/2) Z in closed form; replayed into Polyhedron, Polygon (both orientations and normals, extra q "
+           "component along the normal) and Sphere under rational placements with the translation phase, as batches and single "
+           "vectors, with conjugate symmetry and density linearity; and |q| size in {1e-3, 1e-2, 0} against the second-order Taylor "
+           "value from the exact moments of Convex3/Voxel3 states with a rigorous remainder bound.",
+      note="Generic real q is reached only through relations and the small-q enclosure. Tolerance 1e-8 V on the lattices, 1e-6 V in "
+           "the small-q regime (the implementation's sums cancel like 1/(|q| size)^2; measured 2e-8 V).",
+      technique="TLA+ model checking (TLC) with exact Gaussian-integer Fourier sums + spec-to-code replay",
+      design_ref="DESIGN.md 5 C12")
